@@ -10,6 +10,10 @@
 //! Independent monitors (oracle = plain prefix sums over the description, in u64):
 //!  * windows inside the image, inputs before outputs, pairwise disjoint, required byte length;
 //!    logical ranges of different groups disjoint; too long <=> PdiTooLong;
+//!  * PDO bit lengths whose sum / product with the oversampling factor exceeds u16 (repaired defect
+//!    c08/pdo-bit-length-u16-overflow) are ordinary cases: exact windows, or PdiTooLong with the true
+//!    length, or - iff a sync manager / shared FMMU needs more than 65535 BYTES - an error
+//!    (IntegerTypeConversion). A panic or a window of the wrong length is a violation under that key;
 //!  * marker round trip: a distinct pattern per device written through the group image arrives in
 //!    exactly that device's output sync manager memory and nowhere else in any controller; a
 //!    distinct pattern put into each device's input memory shows up in exactly its input window.
@@ -169,7 +173,8 @@ impl Dev {
     fn os_of(&self, pdo: u16) -> u64 {
         self.os.iter().find(|o| o.0 == pdo).map(|o| o.1 as u64).unwrap_or(1)
     }
-    /// (exact bits of SM `i`, some u16 intermediate overflows) for direction type `ty` (3 out, 4 in).
+    /// (exact bits of SM `i`, some intermediate would overflow u16 - the arithmetic of the code before the
+    /// repair of c08/pdo-bit-length-u16-overflow) for direction type `ty` (3 out, 4 in).
     fn sm_bits(&self, i: usize, ty: u8) -> (u64, bool) {
         let pdos = if ty == 3 { &self.rx } else { &self.tx };
         let mut total = 0u64;
@@ -200,8 +205,32 @@ impl Dev {
     fn dir_len(&self, ty: u8) -> u64 {
         self.dir_sms(ty).iter().map(|x| x.2).sum()
     }
+    /// The class of the repaired defect: some bit-length sum exceeds u16 (used to name failures and to
+    /// record the input distribution; such a device is otherwise an ordinary one).
     fn overflows(&self) -> bool {
         [3u8, 4].iter().any(|&t| self.dir_sms(t).iter().any(|x| x.3))
+    }
+    /// The configuration cannot be programmed at all: a sync manager needs more than 65535 bytes, or
+    /// (CoE path: all non-empty sync managers of a direction extend ONE FMMU) an FMMU would.
+    fn unrepresentable(&self) -> bool {
+        [3u8, 4].iter().any(|&t| {
+            let sms = self.dir_sms(t);
+            sms.iter().any(|x| x.2 > 65535) || (self.coe() && sms.iter().map(|x| x.2).sum::<u64>() > 65535)
+        })
+    }
+    /// The process-data sync managers lie inside the 64 KiB physical address space above the register
+    /// area and do not overlap each other: only then is the marker round trip meaningful.
+    fn fits_ram(&self) -> bool {
+        let mut all: Vec<(u64, u64)> = Vec::new();
+        for t in [3u8, 4] {
+            for (_, start, len, _) in self.dir_sms(t) {
+                if len > 0 {
+                    all.push((start as u64, start as u64 + len));
+                }
+            }
+        }
+        all.iter().all(|r| r.0 >= RAM0 as u64 && r.1 <= 65536)
+            && (0..all.len()).all(|x| (x + 1..all.len()).all(|y| all[x].1 <= all[y].0 || all[y].1 <= all[x].0))
     }
     /// CoE path, two or more non-empty SMs of one direction that are not physically contiguous.
     fn shared_fmmu_noncontiguous(&self) -> bool {
@@ -307,6 +336,7 @@ fn err_token(e: &Error) -> String {
         Error::NotFound { item: Item::Fmmu, .. } => "NotFoundFmmu".to_string(),
         Error::Mailbox(_) => "Sdo".to_string(),
         Error::Capacity(Item::SyncManager) => "Capacity".to_string(),
+        Error::IntegerTypeConversion => "IntConv".to_string(),
         e => format!("Other({e:?})").replace(' ', ""),
     }
 }
@@ -474,7 +504,7 @@ fn run_case(c: &Case, rep: &mut Report) -> String {
                 for &k in &mem {
                     ds[k] = "x,x".to_string();
                 }
-                let ov: Vec<usize> = mem.iter().copied().filter(|&k| c.devs[k].overflows()).collect();
+                let ov: Vec<usize> = mem.iter().copied().filter(|&k| c.devs[k].overflows() || c.devs[k].unrepresentable()).collect();
                 if ov.is_empty() {
                     rep.fail("c08/unexpected-panic", &format!("group {s}: configuration panicked although no bit-length sum overflows u16"), &line);
                 } else {
@@ -540,7 +570,10 @@ fn monitors(c: &Case, line: &str, net: &mut Net, md: Md, ord: &[usize], starts: 
         let start = starts[&s] as u64;
         let Some((_, up)) = ups.iter().find(|(x, _)| *x == s) else { continue };
         let mem = members(c, s);
+        // `ovf`: the group contains the class of the repaired u16 defect (names the failure);
+        // `unrep`: some length cannot be programmed at all, the group must end in an error
         let ovf = mem.iter().any(|&k| c.devs[k].overflows());
+        let unrep = mem.iter().any(|&k| c.devs[k].unrepresentable());
         let in_total: u64 = mem.iter().map(|&k| c.devs[k].dir_len(4)).sum();
         let out_total: u64 = mem.iter().map(|&k| c.devs[k].dir_len(3)).sum();
         let total = in_total + out_total;
@@ -549,12 +582,17 @@ fn monitors(c: &Case, line: &str, net: &mut Net, md: Md, ord: &[usize], starts: 
         }
         match &up.safe {
             Err(tok) if tok.starts_with("TooLong") => {
-                if ovf {
-                    rep.fail("c08/pdo-bit-length-u16-overflow", &format!("group {s}: wrapped bit lengths, then {tok}"), line);
+                if unrep {
+                    rep.fail("c08/pdo-bit-length-u16-overflow", &format!("group {s}: a sync manager / FMMU length beyond 65535 bytes was programmed (wrapped), then {tok}"), line);
                 } else if total <= c.max_pdi[s] as u64 {
-                    rep.fail("c08/spurious-too-long", &format!("group {s}: {tok} but the layout needs {total} <= {}", c.max_pdi[s]), line);
+                    rep.fail(if ovf { "c08/pdo-bit-length-u16-overflow" } else { "c08/spurious-too-long" }, &format!("group {s}: {tok} but the layout needs {total} <= {}", c.max_pdi[s]), line);
                 } else if *tok != format!("TooLong.{}.{}", c.max_pdi[s], total) {
-                    rep.fail("c08/too-long-values", &format!("group {s}: {tok}, expected desired_length {total}"), line);
+                    rep.fail(if ovf { "c08/pdo-bit-length-u16-overflow" } else { "c08/too-long-values" }, &format!("group {s}: {tok}, expected desired_length {total}"), line);
+                }
+            }
+            Err(tok) if tok == "IntConv" => {
+                if !unrep {
+                    rep.fail("c08/spurious-length-error", &format!("group {s}: IntegerTypeConversion although every sync manager and FMMU length fits 65535 bytes (layout needs {total} bytes)"), line);
                 }
             }
             Err(_) => {}
@@ -581,9 +619,22 @@ fn monitors(c: &Case, line: &str, net: &mut Net, md: Md, ord: &[usize], starts: 
                         line,
                     );
                 }
-                if ovf {
-                    rep.fail("c08/pdo-bit-length-u16-overflow", &format!("group {s}: a bit-length sum wrapped silently; windows do not have the length the PDO configuration requires"), line);
+                if unrep {
+                    rep.fail("c08/pdo-bit-length-u16-overflow", &format!("group {s}: into_safe_op succeeded although a sync manager / FMMU needs more than 65535 bytes: the length register holds a wrapped value"), line);
                     continue;
+                }
+                if ovf {
+                    // the class of the repaired defect: name a wrong length after it
+                    let wrong: Vec<usize> = mem
+                        .iter()
+                        .enumerate()
+                        .filter(|&(i, &k)| c.devs[k].overflows() && (wins[i].0.len() as u64 != c.devs[k].dir_len(4) || wins[i].1.len() as u64 != c.devs[k].dir_len(3)))
+                        .map(|(_, &k)| k)
+                        .collect();
+                    if !wrong.is_empty() {
+                        rep.fail("c08/pdo-bit-length-u16-overflow", &format!("group {s}: a bit-length sum wrapped silently; the windows of device(s) {wrong:?} do not have the length the PDO configuration requires"), line);
+                        continue;
+                    }
                 }
                 let bad_cfg = mem.iter().any(|&k| {
                     let d = &c.devs[k];
@@ -647,8 +698,8 @@ fn monitors(c: &Case, line: &str, net: &mut Net, md: Md, ord: &[usize], starts: 
     if live.is_empty() {
         return;
     }
-    // a device whose description overflows u16 has no meaningful expectation
-    let sane = |k: usize| !c.devs[k].overflows();
+    // a device whose sync managers do not fit the physical address space has no meaningful expectation
+    let sane = |k: usize| !c.devs[k].unrepresentable() && c.devs[k].fits_ram();
     // put input patterns into the devices' input memory (description order of the input SMs)
     for &(s, _) in live.iter() {
         for &k in &members(c, *s) {
@@ -811,7 +862,8 @@ impl Alloc {
     fn take(&mut self, len: usize, gap: usize) -> u16 {
         let s = self.cur;
         self.cur += len + gap;
-        s as u16
+        // beyond the physical address space: the simulator ignores such bytes, `fits_ram` is false
+        s.min(0xffff) as u16
     }
 }
 
@@ -821,6 +873,44 @@ struct Shape {
     n_in: usize,
     contiguous: bool,
     big: bool,
+    /// 0: none; 1: one sync manager with a bit sum around the u16 limits (65528 +- 16, 65536 +- 16 bits);
+    /// 2: around the largest length a sync manager register holds (65535 bytes = 524280 bits, +- 16 bits);
+    /// oversampling factors up to 1024
+    huge: u8,
+}
+
+/// PDOs (entries of at most 64 bit, at most 255 per PDO) and oversampling entries whose bit lengths
+/// times the factors add up to exactly `target` bits on sync manager `sm`.
+fn huge_pdos(rng: &mut Rng, sm: u8, base_idx: u16, target: u64, os: u16) -> (Vec<PdoDesc>, Vec<(u16, u16)>) {
+    let os = os.max(1) as u64;
+    let mut per = target / os;
+    let rem = target % os;
+    let mut chunks: Vec<(u64, u16)> = Vec::new();
+    while per > 0 {
+        let c = per.min(255 * 64);
+        chunks.push((c, os as u16));
+        per -= c;
+    }
+    if rem > 0 {
+        chunks.push((rem, 1));
+    }
+    let mut pdos = Vec::new();
+    let mut oss = Vec::new();
+    for (j, (bits, o)) in chunks.into_iter().enumerate() {
+        let mut entries: Vec<PdoEntryDesc> = (0..bits / 64).map(|e| PdoEntryDesc { index: 0x6000 + j as u16, sub: (e + 1) as u8, bits: 64 }).collect();
+        if bits % 64 != 0 {
+            entries.push(PdoEntryDesc { index: 0x6000 + j as u16, sub: (entries.len() + 1) as u8, bits: (bits % 64) as u8 });
+        }
+        if rng.chance(1, 2) {
+            entries.reverse();
+        }
+        let index = base_idx + 0x40 + j as u16;
+        pdos.push(PdoDesc { index, sm, entries });
+        if o != 1 || rng.chance(1, 8) {
+            oss.push((index, o));
+        }
+    }
+    (pdos, oss)
 }
 
 fn gen_dev(rng: &mut Rng, slot: usize, sh: &Shape) -> Dev {
@@ -884,6 +974,34 @@ fn gen_dev(rng: &mut Rng, slot: usize, sh: &Shape) -> Dev {
             os.push((idx, mul));
         }
     }
+    // one sync manager at the limits of the bit / byte length arithmetic
+    if sh.huge != 0 {
+        let pd: Vec<usize> = (base..sms.len()).collect();
+        if !pd.is_empty() {
+            let i = *rng.pick(&pd);
+            let t = Dev::usage_type(&sms[i]);
+            let delta = rng.below(33);
+            let target = match sh.huge {
+                1 => *rng.pick(&[65528u64, 65528, 65535, 65536]) - 16 + delta,
+                _ => 524280 - 16 + delta,
+            };
+            // byte-limit targets need a factor (the EEPROM of the simulated device holds at most ~20 such PDOs);
+            // CoE devices read every mapping entry with an SDO upload: keep their PDOs short
+            let any = rng.range(2, 1024) as u16;
+            let factor = match (sh.huge, sh.kind) {
+                (1, 2) => rng.range(8, 1024) as u16,
+                (1, _) => *rng.pick(&[1u16, 1, 2, 3, 512, any]),
+                (_, 2) => rng.range(256, 1024) as u16,
+                _ => rng.range(33, 1024) as u16,
+            };
+            let (list, base_idx) = if t == 3 { (&mut rx, 0x1600u16) } else { (&mut tx, 0x1a00u16) };
+            list.retain(|p| p.sm as usize != i);
+            let (pdos, oss) = huge_pdos(rng, i as u8, base_idx, target, factor);
+            list.extend(pdos);
+            // first match wins in `oversampling_config`: ours go in front
+            os.splice(0..0, oss);
+        }
+    }
     // FMMU usage list
     let fmmus: Vec<u8> = match sh.kind {
         2 => match rng.below(10) {
@@ -908,7 +1026,7 @@ fn gen_dev(rng: &mut Rng, slot: usize, sh: &Shape) -> Dev {
         let mine = d.dir_sms(t);
         for (i, _, len, _) in mine {
             let gap = if sh.contiguous { 0 } else { *rng.pick(&[0usize, 1, 2, 8, 16, 64]) };
-            let len = (len as usize).min(16384);
+            let len = (len as usize).min(65535);
             d.sms[i].start = al.take(len, gap);
             d.sms[i].len = len as u16;
         }
@@ -921,7 +1039,7 @@ fn gen_dev(rng: &mut Rng, slot: usize, sh: &Shape) -> Dev {
         let mut al = Alloc { cur: RAM0 + d.mbx.0 as usize + d.mbx.1 as usize + 64 };
         for t in [3u8, 4] {
             for (i, _, len, _) in d.dir_sms(t) {
-                d.sms[i].start = al.take((len as usize).min(16384), 4);
+                d.sms[i].start = al.take((len as usize).min(65535), 4);
             }
         }
     }
@@ -966,6 +1084,10 @@ fn gen_case(rng: &mut Rng, n: usize) -> Case {
         let maxsm = if kind == 0 { 8 } else { 6 };
         let mut n_out = rng.range(0, 3).min(rng.range(0, 3) + 1) as usize;
         let mut n_in = (rng.range(0, 3).min(rng.range(0, 3) + 1) as usize).min(maxsm - n_out);
+        let huge = if rng.chance(1, 25) { *rng.pick(&[1u8, 1, 2, 2]) } else { 0 };
+        if huge != 0 && n_out + n_in == 0 {
+            n_in = 1;
+        }
         match flavour[slot] {
             1 => {
                 n_out = 0;
@@ -977,7 +1099,7 @@ fn gen_case(rng: &mut Rng, n: usize) -> Case {
             }
             _ => {}
         }
-        let sh = Shape { kind, n_out, n_in, contiguous: rng.chance(2, 3), big: rng.chance(1, 60) };
+        let sh = Shape { kind, n_out, n_in, contiguous: rng.chance(2, 3), big: rng.chance(1, 60), huge };
         devs.push(gen_dev(rng, slot, &sh));
     }
     let max_pdi = pick_sizes(rng, &devs, tight);
@@ -1034,14 +1156,74 @@ fn corpus() -> Vec<Case> {
     // PdiTooLong, but both FMMUs stay programmed; group 1 (address 1) then shares logical byte 1 with it
     v.push(Case { max_pdi: [1, 40, 40], devs: vec![plain_out(1), plain_out(0), plain_out(0)] });
     v.push(Case { max_pdi: [1, 40, 40], devs: vec![plain_in(1), plain_in(0)] });
-    // KNOWN FINDING c08/pdo-bit-length-u16-overflow: 8 PDOs x 129 entries x 64 bit = 66048 bits on one SM
+    // REPAIRED c08/pdo-bit-length-u16-overflow (witnesses of the former known finding; they must now be configured
+    // with their true lengths): 8 PDOs x 129 entries x 64 bit = 66048 bits = 8256 bytes on one SM;
+    // 2 x 64 bit x oversampling 512 = 65536 bits = 8192 bytes
     let mut big = plain_in(0);
     big.tx = (0..8).map(|j| pdo(0x1a00 + j, 0, &[64u8; 129])).collect();
     v.push(Case { max_pdi: [65535, 40, 40], devs: vec![big.clone()] });
     let mut big2 = plain_in(0);
     big2.tx = vec![pdo(0x1a00, 0, &[64, 64])];
     big2.os = vec![(0x1a00, 512)];
-    v.push(Case { max_pdi: [65535, 40, 40], devs: vec![plain_out(0), big2] });
+    v.push(Case { max_pdi: [65535, 40, 40], devs: vec![plain_out(0), big2.clone()] });
+    // the same two where the true length does not fit the declared capacity: PdiTooLong with the true length
+    v.push(Case { max_pdi: [4000, 40, 40], devs: vec![big.clone()] });
+    v.push(Case { max_pdi: [4000, 40, 40], devs: vec![plain_out(0), big2] });
+    // the witness of Props/C08 bit_length_overflow_fixed: 5 PDOs x 255 entries x 64 bit = 81600 bits = 10200 bytes,
+    // as inputs and (second device) as outputs
+    let mut big5 = plain_in(0);
+    big5.tx = (0..5).map(|j| pdo(0x1a00 + j, 0, &[64u8; 255])).collect();
+    let mut big5o = plain_out(0);
+    big5o.sms = vec![sm(0x4000, 0x44, 3)];
+    big5o.rx = (0..5).map(|j| pdo(0x1600 + j, 0, &[64u8; 255])).collect();
+    v.push(Case { max_pdi: [65535, 40, 40], devs: vec![big5, big5o] });
+    // the limits of the u16 arithmetic of old: 65528 bits (8191 bytes: the last sum that fitted), 65529 (+7 overflowed),
+    // 65535, 65536 (the sum itself overflowed)
+    for extra in [&[][..], &[1u8][..], &[7u8][..], &[8u8][..]] {
+        let mut d = plain_in(0);
+        d.tx = (0..4).map(|j| pdo(0x1a00 + j, 0, &[64u8; 255])).collect();
+        d.tx.push(pdo(0x1a04, 0, &[62u8; 4])); // 65280 + 248 = 65528
+        if !extra.is_empty() {
+            d.tx.push(pdo(0x1a05, 0, extra));
+        }
+        v.push(Case { max_pdi: [65535, 40, 40], devs: vec![d, plain_out(0)] });
+    }
+    // the limit of the length registers: 514 bit x oversampling 1020 = 524280 bits = 65535 bytes is programmed
+    // (group capacity 65535: fits exactly), one bit more is Error::IntegerTypeConversion
+    let mut lim = plain_in(0);
+    lim.tx = vec![pdo(0x1a00, 0, &[64, 64, 64, 64, 64, 64, 64, 64, 2])];
+    lim.os = vec![(0x1a00, 1020)];
+    v.push(Case { max_pdi: [65535, 40, 40], devs: vec![lim.clone()] });
+    let mut lim1 = lim.clone();
+    lim1.tx.push(pdo(0x1a01, 0, &[1]));
+    v.push(Case { max_pdi: [65535, 40, 40], devs: vec![plain_out(0), lim1] });
+    // 9 PDOs of 255 x 255 bit (the largest an EEPROM describes) = 73154 bytes: IntegerTypeConversion; 8 of them = 65025 bytes
+    let mut huge9 = plain_in(0);
+    huge9.tx = (0..9).map(|j| pdo(0x1a00 + j, 0, &[255u8; 255])).collect();
+    v.push(Case { max_pdi: [65535, 40, 40], devs: vec![huge9.clone()] });
+    huge9.tx.truncate(8);
+    v.push(Case { max_pdi: [65535, 40, 40], devs: vec![huge9] });
+    // oversampling 65535 on a 255 x 255 bit PDO (the largest product the types allow), 20 of them on one SM
+    // (64 such PDOs do not fit one SII category: 64 x 2048 bytes > 65535 words)
+    let mut prod = plain_in(0);
+    prod.tx = (0..20).map(|j| pdo(0x1a00 + j, 0, &[255u8; 255])).collect();
+    prod.os = (0..20).map(|j| (0x1a00 + j, 65535)).collect();
+    v.push(Case { max_pdi: [65535, 40, 40], devs: vec![prod] });
+    // CoE: two output sync managers of 40000 bytes each share ONE FMMU whose length would be 80000:
+    // IntegerTypeConversion from the checked addition; a single one is programmed
+    let coe_big = |n: usize| Dev {
+        slot: 0,
+        mbx: (64, 64, 4),
+        sms: vec![sm(0x1000, 0x26, 1), sm(0x1080, 0x22, 2), sm(0x1100, 0x64, 3), sm(0xad40, 0x64, 3)],
+        fmmus: vec![1, 2, 3],
+        fmmu_ex: vec![],
+        tx: vec![],
+        rx: (0..n).map(|j| pdo(0x1600 + j as u16, 2 + j as u8, &[250])).collect(),
+        os: vec![(0x1600, 1280), (0x1601, 1280)],
+        fmmu_count: 8,
+    };
+    v.push(Case { max_pdi: [65535, 40, 40], devs: vec![coe_big(2)] });
+    v.push(Case { max_pdi: [65535, 40, 40], devs: vec![coe_big(1)] });
     // KNOWN FINDING c08/eeprom-fmmu-index-is-sm-index: mailbox (FoE only) device, inputs on SM3, three FMMUs
     let foe = Dev {
         slot: 0,
@@ -1099,6 +1281,23 @@ fn note_case(c: &Case, out: &str, rep: &mut Report) {
         }
         if d.overflows() {
             rep.hit("dev:class-u16-overflow");
+        }
+        if d.unrepresentable() {
+            rep.hit("dev:class-length-beyond-65535-bytes");
+        }
+        for t in [3u8, 4] {
+            for x in d.dir_sms(t) {
+                let bits = d.sm_bits(x.0, t).0;
+                if (65528 - 16..=65536 + 16).contains(&bits) {
+                    rep.hit("sm:bits-around-u16-limit");
+                }
+                if (524280 - 16..=524280 + 16).contains(&bits) {
+                    rep.hit("sm:bits-around-65535-bytes");
+                }
+            }
+        }
+        if d.os.iter().any(|o| o.1 >= 256) {
+            rep.hit("dev:oversampling>=256");
         }
         if d.fmmu_index_beyond_count() {
             rep.hit("dev:class-fmmu-index-beyond-count");
